@@ -4,7 +4,7 @@ package handshake
 //
 //   hsCombo   real credentials for one curve x cipher: honest identities A and B (v1 and v2 certificates over the same
 //             key), the adversary's identities M (insider under the trusted CAs), U (untrusted CA), X (expired),
-//             L (blocklisted), K (B's certificate with its own static key), the CA pool and the verifier.
+//             L (blocklisted), K (the honest peer's certificate bytes under its own static key), the CA pool and the verifier.
 //   hsWorld   one behaviour: the specification's machine slots as real objects (honest slots = handshake.Machine,
 //             adversary slots = raw flynn/noise states that may send any payload / any static key), the stored
 //             datagrams, and the adversary's delivery operations implemented on the real bytes at the token offsets.
@@ -113,7 +113,7 @@ func hsNewCombo(name string, curve cert.Curve, cipher noise.CipherFunc) *hsCombo
 		}
 		c.pool.BlocklistFingerprint(fp)
 	}
-	// K: B's certificate bytes with a static key pair of its own
+	// K: a static key pair of its own; it presents A's or B's certificate bytes (hsWorld.advPayload)
 	k := &hsIdent{name: "K", cert: b.cert, raw: b.raw}
 	k.pub, k.priv = c.keypair()
 	c.ids["K"] = k
@@ -186,6 +186,7 @@ func hsOwner(slot string) string {
 	return "B"
 }
 
+// getCred: a fresh set of Credential objects (callers that model one node keep it: hsWorld.credsOf)
 func (c *hsCombo) getCred(vc int, id string) GetCredentialFunc {
 	ident := c.ids[id]
 	creds := map[cert.Version]*Credential{}
@@ -193,6 +194,19 @@ func (c *hsCombo) getCred(vc int, id string) GetCredentialFunc {
 		creds[v] = NewCredential(ident.cert[v], ident.raw[v], ident.priv, c.suite)
 	}
 	return func(v cert.Version) *Credential { return creds[v] }
+}
+
+// credsOf: as on a real node (the CertState's credentials serve every handshake), all machines of one identity share
+// ONE Credential object per version for the whole behaviour, so anything a Credential remembers crosses sessions.
+func (w *hsWorld) credsOf(id string) GetCredentialFunc {
+	if w.creds == nil {
+		w.creds = map[string]GetCredentialFunc{}
+	}
+	if f, ok := w.creds[id]; ok {
+		return f
+	}
+	w.creds[id] = w.c.getCred(w.vc, id)
+	return w.creds[id]
 }
 
 // ------------------------------------------------------------------------------------------------ world
@@ -224,6 +238,7 @@ type hsWorld struct {
 	log   []string
 	extra int
 	dyn   map[string]int
+	creds map[string]GetCredentialFunc
 }
 
 func (w *hsWorld) modelIdx(name string) int {
@@ -290,7 +305,7 @@ func (w *hsWorld) slot(name string) *hsSlot {
 	if s.honest {
 		own := hsOwner(name)
 		mi := w.modelIdx(name)
-		m, err := NewMachine(hsVDef(w.vc, own), w.c.getCred(w.vc, own), w.c.verifier(),
+		m, err := NewMachine(hsVDef(w.vc, own), w.credsOf(own), w.c.verifier(),
 			func() (uint32, error) { return w.index(mi), nil }, name[0] == 'I', header.HandshakeIXPSK0)
 		if err != nil {
 			panic(err)
@@ -303,8 +318,11 @@ func (w *hsWorld) slot(name string) *hsSlot {
 
 func (w *hsWorld) advVer() cert.Version { return hsVDef(w.vc, "A") }
 
-func (w *hsWorld) advPayload(pk string, ii, ri uint32) []byte {
+func (w *hsWorld) advPayload(initiator bool, pk string, ii, ri uint32) []byte {
 	id := w.c.ids[w.adv]
+	if w.adv == "K" { // CertOfI / CertOfR of the specification: A's certificate towards responders, B's towards initiators
+		id = w.c.ids[map[bool]string{true: "A", false: "B"}[initiator]]
+	}
 	v := w.advVer()
 	now := uint64(w.c.now.UnixNano())
 	switch pk {
@@ -350,7 +368,7 @@ func (w *hsWorld) advInit(pk string) { w.advInitAs("XI", pk) }
 func (w *hsWorld) advInitAs(name, pk string) {
 	s := w.slot(name)
 	hs := w.advNoise(true, false)
-	out, _, _, err := hs.WriteMessage(hsHeader(0, 1), w.advPayload(pk, w.index(w.modelIdx(s.name)), 0))
+	out, _, _, err := hs.WriteMessage(hsHeader(0, 1), w.advPayload(true, pk, w.index(w.modelIdx(s.name)), 0))
 	if err != nil {
 		panic(err)
 	}
@@ -371,7 +389,7 @@ func (w *hsWorld) advRespAs(name, src, pk, sk string) error {
 	if err != nil {
 		return err
 	}
-	out, cs1, cs2, err := hs.WriteMessage(hsHeader(p.InitiatorIndex, 2), w.advPayload(pk, p.InitiatorIndex, w.index(w.modelIdx(s.name))))
+	out, cs1, cs2, err := hs.WriteMessage(hsHeader(p.InitiatorIndex, 2), w.advPayload(false, pk, p.InitiatorIndex, w.index(w.modelIdx(s.name))))
 	if err != nil {
 		return err
 	}
